@@ -521,7 +521,10 @@ func (e *Engine) decide(a *alt, c term.ID) int {
 			if x == e.nilT {
 				o = y
 			}
-			if op := T.Op(o); strings.HasPrefix(op, "addr#") || strings.HasPrefix(op, "closure:") || strings.HasPrefix(op, "fn:") {
+			// the address of a variable, of a field or element reached through an address, of a global,
+			// and function values are never nil
+			if op := T.Op(o); strings.HasPrefix(op, "addr#") || strings.HasPrefix(op, "closure:") || strings.HasPrefix(op, "fn:") ||
+				strings.HasPrefix(op, "gaddr:") || strings.HasPrefix(op, "faddr:") { // &p.f panics on a nil p, so a computed field address is non-nil
 				r = -1
 			}
 		}
